@@ -346,7 +346,7 @@ def oracle(ctx, kind, case, out):
     def canon_sections(x, orig):
         res = []
         for s in x[2]:
-            res.append(sorted((lower_name(rs[0], orig), rs[1], rs[2], rs[3], rs[4], rs[5] if rs[6] else 0,
+            res.append(sorted((lower_name(rs[0], orig), rs[1], rs[2], rs[3], -1 if rs[4] is None else rs[4], rs[5] if rs[6] else 0,
                                tuple(sorted(canon_rd(rd, orig) for rd in rs[6]))) for rs in s))
         return res
 
